@@ -4,6 +4,12 @@ import json, os
 ROOT = os.path.dirname(os.path.dirname(os.path.abspath(__file__)))
 TECH = "bounded symbolic execution of go/ssa + SMT (z3; cvc5 cross-check in thorough), native replay of counterexamples"
 claimed = {
+ "C03": dict(level="Context-bounded symbolic model checking of the real udp/client.Conn (Do/doInternal, writeMessage, Process, handleSpecialMessages, reader loop, handleReq/handle, token and message-ID tables, limiter, coder, pool) over an in-memory session with two concurrent callers and a peer that answers in every decided order/style/multiplicity with symbolic content: each successful call returns its own token and the content produced for it, no response object reaches two callers, a second request with an outstanding token is rejected without displacing the first.",
+             note="Trusted: gosym encoder and scheduler model (concurrent witnesses replayed natively under the recorded schedule and select choices), z3. Claimed for the datagram connection with block-wise off; other transports outside.", ref="DESIGN.md §4 C03"),
+ "C04": dict(level="Bounded symbolic model checking of the real block-wise layer on both ends of a relay (Do, Handle, processReceivedMessage, continue/start/createSendingMessage, both caches, memfile): for every body length around block boundaries with symbolic bytes, SZX pair and decided fault (duplicate, drop, forged block of another representation), a completed exchange delivers exactly the supplied bytes exactly once with the other options preserved, and an exchange that cannot complete never presents a partial body.",
+             note="Trusted: gosym encoder (native witnesses), z3/cvc5. Sequential two-party relay; BERT, >2 blocks, concurrency of transfers outside.", ref="DESIGN.md §4 C04"),
+ "C13": dict(level="Bounded symbolic model checking of decided exchange histories on the real udp/client.Conn (in-package inspection of the unexported tables) and of completed/abandoned block-wise transfers, each followed by a housekeeping tick beyond every deadline: nothing per-exchange is retained.",
+             note="Trusted: gosym encoder/scheduler (native witnesses), z3. History length 2-3; limiter queues covered by C16; server tables outside.", ref="DESIGN.md §4 C13"),
  "C05": dict(level="Bounded symbolic model checking of the real udp/client.Conn receive path (handleReq, per-ID lock, reply cache with the real expiring cache, processResponse, pooled messages, coder) over an in-memory session: a duplicate within the symbolic exchange lifetime never re-runs the handler and is answered with the same reply matched to its message ID; after the lifetime the ID is fresh; IDs colliding with the endpoint's own outgoing IDs are inside the domain.",
              note="Trusted: gosym encoder (native witnesses with injected clock and schedule), z3/cvc5. Concurrent copies, separate responses and DTLS outside.", ref="DESIGN.md §4 C05"),
  "C06": dict(level="Bounded symbolic model checking of the real retransmission machinery (prepareWriteMessage, midElement, CheckExpirations, handleSpecialMessages, NSTART semaphore) with time as a symbolic variable: number of copies, earliest instant of the k-th copy, byte-identity of copies, silence after ACK/RST/return, clean exhaustion; and a 2-thread harness deciding that the retransmission clock of a request queued behind NSTART starts at its first transmission.",
